@@ -147,6 +147,10 @@ type chunkReader struct {
 	seekLimit, seeks int
 	// errVal: the fault itself (nil: errInjected)
 	errVal error
+	// style 4: (0, err) once, then the rest of the data as if nothing had happened; style 5: the bytes before the fault together with
+	// the error, then the rest of the data (a transient fault: the parse must still end in an error)
+	// zeroEvery > 0: every zeroEvery-th call returns (0, nil) without delivering anything (allowed by io.Reader; not the end)
+	zeroEvery, calls int
 }
 
 var errInjected = errors.New("injected read fault")
@@ -168,14 +172,18 @@ func (r *chunkReader) fault() error {
 }
 
 func (r *chunkReader) Read(p []byte) (int, error) {
-	if r.failed {
+	r.calls++
+	if r.zeroEvery > 0 && r.calls%r.zeroEvery == 0 && len(p) > 0 {
+		return 0, nil
+	}
+	if r.failed && r.style < 4 {
 		switch r.style {
 		case 1, 3:
 			return 0, io.EOF
 		}
 		return 0, r.fault()
 	}
-	if r.failAt >= 0 && r.pos >= r.failAt {
+	if r.failAt >= 0 && r.pos >= r.failAt && !r.failed {
 		r.failed = true
 		return 0, r.fault()
 	}
@@ -192,7 +200,7 @@ func (r *chunkReader) Read(p []byte) (int, error) {
 	if r.pos+n > len(r.data) {
 		n = len(r.data) - r.pos
 	}
-	if r.failAt >= 0 && r.pos+n >= r.failAt && (r.style == 1 || r.style == 2) && len(p) >= r.failAt-r.pos {
+	if !r.failed && r.failAt >= 0 && r.pos+n >= r.failAt && (r.style == 1 || r.style == 2 || r.style == 5) && len(p) >= r.failAt-r.pos {
 		// the last bytes before the fault arrive in the same call as the error
 		n = r.failAt - r.pos
 		copy(p, r.data[r.pos:r.pos+n])
@@ -200,7 +208,7 @@ func (r *chunkReader) Read(p []byte) (int, error) {
 		r.failed = true
 		return n, r.fault()
 	}
-	if r.failAt >= 0 && r.pos+n > r.failAt {
+	if !r.failed && r.failAt >= 0 && r.pos+n > r.failAt {
 		n = r.failAt - r.pos
 		if n == 0 {
 			r.failed = true
@@ -483,7 +491,7 @@ func runParse(c *Ctx, std *fdCapture) {
 					v.Extra = map[string]string{"first": trunc(line, 200), "again": trunc(again.Line, 200)}
 					c.addViolation(v)
 				}
-				for _, mode := range []string{"one-byte", "random-chunks", "offset-start", "one-seek-only"} {
+				for _, mode := range []string{"one-byte", "random-chunks", "offset-start", "one-seek-only", "empty-reads", "empty-reads-one-byte"} {
 					cr := &chunkReader{data: []byte(q), failAt: -1}
 					switch mode {
 					case "one-byte":
@@ -493,6 +501,12 @@ func runParse(c *Ctx, std *fdCapture) {
 					case "offset-start":
 						cr.chunks = func() int { return 4096 }
 						cr.pos = len(q) / 2
+					case "empty-reads": // now and then a read that delivers nothing and reports nothing: not the end of the query
+						cr.chunks = func() int { return 1 + r.Intn(3) }
+						cr.zeroEvery = 2 + r.Intn(3)
+					case "empty-reads-one-byte":
+						cr.chunks = func() int { return 1 }
+						cr.zeroEvery = 2
 					case "one-seek-only": // the reader can be positioned once (at the start of the parse) and never again
 						cr.chunks = func() int { return 7 }
 						cr.pos = len(q) / 3
@@ -518,15 +532,15 @@ func runParse(c *Ctx, std *fdCapture) {
 					}
 				}
 				for _, k := range offs {
-					cr := &chunkReader{data: []byte(q), failAt: k, chunks: func() int { return 1 + r.Intn(4) }, style: (k + c.N) % 4, errVal: faultValues[(k+c.N/4)%len(faultValues)]}
-					if k == 0 && cr.style != 0 {
+					cr := &chunkReader{data: []byte(q), failAt: k, chunks: func() int { return 1 + r.Intn(4) }, style: (k + c.N) % 6, errVal: faultValues[(k+c.N/6)%len(faultValues)]}
+					if k == 0 && cr.style != 0 && cr.style < 4 {
 						cr.style = 3
 					}
 					b0 := std.size()
 					got := parseWith(func() (mpath.Operation, error) { return mpath.ParseReadSeeker(cr) })
 					if cr.failed && got.Class != "ERR" {
 						v := mk("fault", fmt.Sprintf("a reader that fails at offset %d (%s) yields %s instead of an error", k,
-							[]string{"no bytes with the error, the error again on later calls", "the bytes before the fault in the same call as the error, then end of input", "bytes with the error, then the error again", "the error once, then end of input"}[cr.style], got.Class))
+							[]string{"no bytes with the error, the error again on later calls", "the bytes before the fault in the same call as the error, then end of input", "bytes with the error, then the error again", "the error once, then end of input", "the error once, then the rest of the data", "bytes with the error, then the rest of the data"}[cr.style], got.Class))
 						v.Key = fmt.Sprintf("fault:%s:style%d", got.Class, cr.style)
 						v.Extra = map[string]any{"fail_at": k, "result": trunc(got.Line, 200)}
 						c.addViolation(v)
@@ -568,8 +582,33 @@ func runParse(c *Ctx, std *fdCapture) {
 	}
 	for _, q := range []string{"", " ", "\n", "// c", "/* c */", "\xef\xbb\xbf", "$.a.Equal(NaN)", "$.a.Equal(Inf)", "$.a.Equal(infinity)", "$.a.Equal(-Inf)", "$.a.Equal(1e400)",
 		"$.a?.b?.IsNull()", "$.a.Equal(.5)", "$.a.Equal(1.5.5)", "$.a.Equal(5.)", "$.a.Equal(1", "{$.a", "$[", "$.a.Equal (1)", "$.a.Equal(\"\\d+\")", "$.a.Equal('x')", "$.a.Equal(`r`)",
-		"$.a.Equal(\"un", "$.a.Equal(1,,2)", "$.a.Equal(1 2)", `$.xs.Select("@ . a")`, `$.xs[@.a.Less(100)].Select("@.b.AnyOf(1 2)")`, `$.xs.Select("$.a /*c*/ .b")`, `{$.xs.Select("@.a.AnyOf(1 2)").Any()}`, `$.k.Equal($.xs.Select("@ .a").First())`, "$.a.Equal(()", "$.a.Equal(])", "$.a.Equal(?)", "$.a.Equal(x?)", "$.a[@.b]", "$.a[@.b][@.c]", "$.a[OR,@.b,@.c]"} {
+		"$.a.Equal(\"un", "$.a.Equal(1,,2)", "$.a.Equal(1 2)", `$.a.Equal('\t')`, `$.a.Equal('a\nb')`, `$.a.Equal('\"')`, `$.a.Contains('x\ty', "z")`, `$.k.Equal('abc')`, `{$.k.Equal('\r')}`, "$.a.Equal(1.)", "$.a.Add(2.).Greater(10.)", "$.a.Sum(1.,2)", `$.xs.Select("@ . a")`, `$.xs[@.a.Less(100)].Select("@.b.AnyOf(1 2)")`, `$.xs.Select("$.a /*c*/ .b")`, `{$.xs.Select("@.a.AnyOf(1 2)").Any()}`, `$.k.Equal($.xs.Select("@ .a").First())`, "$.a.Equal(()", "$.a.Equal(])", "$.a.Equal(?)", "$.a.Equal(x?)", "$.a[@.b]", "$.a[@.b][@.c]", "$.a[OR,@.b,@.c]"} {
 		emit(q, "named")
+	}
+	// a transient fault (the error once, then the data goes on) at every offset of queries in which the scanner is in the middle of
+	// something when it comes: a multi-byte character, a string, a comment
+	for _, q := range []string{"$.caf\u00e9.name", "$.\u65e5\u672c.x", `$.a.Equal("two words")`, "$.a/* c */.b", `$.a.Equal("\u00e9t\u00e9")`, "$.a.b.c", "{OR,$.a,$.b}", "$.\U0001F600.k"} {
+		want := parseStr(q)
+		for k := 0; k <= len(q); k++ {
+			for _, style := range []int{4, 5} {
+				for _, ev := range []error{errInjected, io.ErrUnexpectedEOF} {
+					cr := &chunkReader{data: []byte(q), failAt: k, chunks: func() int { return 3 }, style: style, errVal: ev}
+					got := parseWith(func() (mpath.Operation, error) { return mpath.ParseReadSeeker(cr) })
+					c.Extra["fault_injections"] = asInt(c.Extra["fault_injections"]) + 1
+					if cr.failed && got.Class != "ERR" {
+						v := Violation{Kind: "fault", Query: q, QueryHex: hx(q), Expected: "an error", Got: trunc(got.Line, 200), Cls: "named/transient-fault",
+							Why: fmt.Sprintf("a reader that fails once at offset %d and then goes on delivering yields %s instead of an error", k, got.Class), Key: fmt.Sprintf("fault:%s:style%d", got.Class, style)}
+						c.addViolation(v)
+					}
+				}
+			}
+			// the same offsets with an empty read instead of a fault: the outcome of ParseString
+			cr := &chunkReader{data: []byte(q), failAt: -1, chunks: func() int { return k%3 + 1 }, zeroEvery: 2 + k%3}
+			if got := parseWith(func() (mpath.Operation, error) { return mpath.ParseReadSeeker(cr) }); got.Line != want.Line {
+				c.addViolation(Violation{Kind: "chunking", Query: q, QueryHex: hx(q), Expected: trunc(want.Line, 200), Got: trunc(got.Line, 200), Cls: "named/empty-reads",
+					Why: "ParseReadSeeker through a reader that sometimes delivers nothing (0, nil) differs from ParseString on the same bytes", Key: "chunking:empty-reads"})
+			}
+		}
 	}
 	// bounded-exhaustive block
 	maxLen := 4
